@@ -145,4 +145,226 @@ theorem frame_depositPass2 (dl td c : Nat) (isLocal : Bool) (hc : c ≤ maxChain
         | exact (frame_poolSub (holdingId_lt hc) ‹poolSub st.s _ _ = Except.ok _›).trans f
         | exact f
 
+theorem frame_batchDepositCore {s : State} {ds : List Deposit} {c x y : Nat} {isLocal : Bool} {p0 : Option Pool} {persist : Bool}
+    {l : Ledger} (hc : c ≤ maxChainId) (h : batchDepositCore s ds c x y isLocal p0 persist = .ok l) : SellFrame s l.s := by
+  dex_unfold batchDepositCore at h
+  repeat' (split at h <;> try (cases h; done))
+  all_goals (injection h with h; subst h)
+  all_goals (try have f1 := frame_depositPass1 _ _ _ hc _ _ _ ‹depositPass1 _ _ _ _ _ = Except.ok _›)
+  all_goals (try have f2 := frame_depositPass2 _ _ _ _ hc _ _ _ ‹depositPass2 _ _ _ _ _ _ = Except.ok _›)
+  all_goals first
+    | exact SellFrame.refl _
+    | exact f1
+    | exact (f1.trans f2).trans (frame_setPool _ _ _ (liquidityId_lt hc))
+    | exact f1.trans f2
+
+theorem bind_ok {α β : Type} {m : M α} {f : α → M β} {r : β} (h : (m >>= f) = .ok r) : ∃ a, m = .ok a ∧ f a = .ok r := by
+  cases m with
+  | error e => cases h
+  | ok a => exact ⟨a, rfl, h⟩
+
+theorem frame_cappedEvict {c : Nat} {isLocal : Bool} (hc : c ≤ maxChainId) {nc : Newcomer} {l : Ledger} {low : Bytes × Nat}
+    {r : Ledger × Option (Bytes × Nat)} (h : cappedEvict c isLocal nc l low = .ok r) : SellFrame l.s r.1.s := by
+  unfold cappedEvict at h
+  obtain ⟨ts, h1, h⟩ := bind_ok h
+  clear h1
+  dsimp only at h
+  split at h
+  · split at h
+    · obtain ⟨s1, h2, h⟩ := bind_ok h
+      obtain ⟨s2, h3, h⟩ := bind_ok h
+      injection h with h; subst h
+      exact (frame_poolSub (holdingId_lt hc) h2).trans (frame_accountAdd h3)
+    · injection h with h; subst h
+      exact SellFrame.refl _
+  · obtain ⟨l1, h2, h⟩ := bind_ok h
+    obtain ⟨l2, h3, h⟩ := bind_ok h
+    injection h with h; subst h
+    exact (frame_batchWithdraw hc h2).trans (frame_batchDepositCore hc h3)
+
+theorem frame_cappedStep {c : Nat} {isLocal : Bool} (hc : c ≤ maxChainId) {nc : Newcomer} {l : Ledger} {low : Option (Bytes × Nat)}
+    {r : Ledger × Option (Bytes × Nat)} (h : cappedStep c isLocal nc l low = .ok r) : SellFrame l.s r.1.s := by
+  unfold cappedStep at h
+  split at h
+  · split at h
+    · cases h
+    · injection h with h; subst h
+      exact frame_batchDepositCore hc ‹batchDepositCore _ _ _ _ _ _ _ _ = Except.ok _›
+  · split at h
+    · cases h
+    · exact frame_cappedEvict hc h
+
+theorem frame_cappedLoop (c : Nat) (isLocal : Bool) (hc : c ≤ maxChainId) (ncs : List Newcomer) (l l' : Ledger)
+    (low : Option (Bytes × Nat)) (h : cappedLoop c isLocal ncs l low = .ok l') : SellFrame l.s l'.s := by
+  induction ncs generalizing l low with
+  | nil => simp [cappedLoop] at h; subst h; exact SellFrame.refl _
+  | cons nc rest ih =>
+    unfold cappedLoop at h
+    split at h
+    · cases h
+    · exact (frame_cappedStep hc ‹cappedStep _ _ _ _ _ = Except.ok _›).trans (ih _ _ h)
+
+theorem frame_batchDeposit {s : State} {b : Batch} {c x y : Nat} {isLocal : Bool} {l : Ledger} (hc : c ≤ maxChainId)
+    (h : batchDeposit s b c x y isLocal = .ok l) : SellFrame s l.s := by
+  dex_unfold batchDeposit at h
+  repeat' (split at h <;> try (cases h; done))
+  all_goals (try (injection h with h; subst h))
+  all_goals (try have fd := frame_batchDepositCore hc ‹batchDepositCore _ _ _ _ _ _ _ _ = Except.ok _›)
+  all_goals (try have fc := frame_cappedLoop _ _ hc _ _ _ _ ‹cappedLoop _ _ _ _ _ = Except.ok _›)
+  all_goals first
+    | exact SellFrame.refl _
+    | exact frame_batchDepositCore hc h
+    | exact (fd.trans fc).trans (frame_setPool _ _ _ (liquidityId_lt hc))
+
+/-! ### receipts, AMM payouts, rotation -/
+
+theorem frame_orderReceipts (c : Nat) (hc : c ≤ maxChainId) (os : List LimitOrder) (rs : List Nat) (s : State) (x y : Nat)
+    (r : State × Nat × Nat) (h : orderReceipts c os rs s x y = .ok r) : SellFrame s r.1 := by
+  induction os generalizing rs s x y with
+  | nil => simp [orderReceipts] at h; subst h; exact SellFrame.refl _
+  | cons o os ih =>
+    unfold orderReceipts at h
+    simp only [bind, Except.bind, pure, Except.pure, throw, throwThe, MonadExceptOf.throw] at h
+    repeat' (split at h <;> try (cases h; done))
+    all_goals (have f := ih _ _ _ _ h)
+    all_goals (have fs := frame_poolSub (holdingId_lt hc) ‹poolSub s _ _ = Except.ok _›)
+    all_goals first
+      | exact (fs.trans (frame_poolAdd _ _ _ (liquidityId_lt hc))).trans f
+      | exact (fs.trans (frame_accountAdd ‹accountAdd _ _ _ = Except.ok _›)).trans f
+
+theorem frame_payReceipts (c : Nat) (hc : c ≤ maxChainId) (os : List (Bytes × LimitOrder)) (res : List (Bytes × Nat)) (s : State)
+    (acc : List Nat) (r : State × List Nat) (h : payReceipts c os res s acc = .ok r) : SellFrame s r.1 := by
+  induction os generalizing s acc with
+  | nil => simp [payReceipts] at h; subst h; exact SellFrame.refl _
+  | cons o os ih =>
+    obtain ⟨k, o⟩ := o
+    unfold payReceipts at h
+    simp only [bind, Except.bind, pure, Except.pure, throw, throwThe, MonadExceptOf.throw] at h
+    repeat' (split at h <;> try (cases h; done))
+    all_goals (have f := ih _ _ h)
+    all_goals first
+      | exact f
+      | exact ((frame_poolSub (liquidityId_lt hc) ‹poolSub s _ _ = Except.ok _›).trans
+          (frame_accountAdd ‹accountAdd _ _ _ = Except.ok _›)).trans f
+
+theorem frame_dexBatchOrders {s : State} {os : List LimitOrder} {bh : Bytes} {x y c : Nat} {r : State × Nat × Nat × List Nat}
+    (hc : c ≤ maxChainId) (h : dexBatchOrders s os bh x y c = .ok r) : SellFrame s r.1 := by
+  dex_unfold dexBatchOrders at h
+  repeat' (split at h <;> try (cases h; done))
+  injection h with h; subst h
+  exact frame_payReceipts _ hc _ _ _ _ _ ‹payReceipts _ _ _ _ _ = Except.ok _›
+
+theorem frame_rotate (s : State) (rh : Bytes) (a b c : Nat) (rs : List Nat) : SellFrame s (rotate s rh a b c rs) := by
+  unfold rotate
+  split
+  · exact SellFrame.refl _
+  · exact (frame_delNext _ _).trans (frame_setLocked _ _ _)
+
+/-! ### the batch entry points -/
+
+theorem frame_executeRemote {s s' : State} {remote : Batch} {c : Nat} {bh : Bytes} {mirror : Nat} (hc : c ≤ maxChainId)
+    (h : executeRemote s remote c bh mirror = .ok s') : SellFrame s s' := by
+  unfold executeRemote at h
+  dsimp only at h
+  obtain ⟨r, hr, h⟩ := bind_ok h
+  obtain ⟨l1, hl1, h⟩ := bind_ok h
+  obtain ⟨l2, hl2, h⟩ := bind_ok h
+  injection h with h; subst h
+  exact (((frame_dexBatchOrders hc hr).trans (frame_batchWithdraw hc hl1)).trans (frame_batchDeposit hc hl2)).trans
+    (frame_rotate _ _ _ _ _ _)
+
+theorem frame_applyReceipts {s : State} {lb remote : Batch} {c : Nat} {r : State × Nat} (hc : c ≤ maxChainId)
+    (h : applyReceipts s lb remote c = .ok r) : SellFrame s r.1 := by
+  unfold applyReceipts at h
+  obtain ⟨r0, hr, h⟩ := bind_ok h
+  obtain ⟨l1, hl1, h⟩ := bind_ok h
+  obtain ⟨l2, hl2, h⟩ := bind_ok h
+  injection h with h; subst h
+  exact (((frame_orderReceipts _ hc _ _ _ _ _ _ hr).trans (frame_batchWithdraw hc hl1)).trans (frame_batchDeposit hc hl2)).trans
+    (frame_delLocked _ _)
+
+theorem frame_remoteDexBatch {s s' : State} {remote : Batch} {c : Nat} {bh : Bytes} (hc : c ≤ maxChainId)
+    (h : remoteDexBatch s remote c bh = .ok s') : SellFrame s s' := by
+  unfold remoteDexBatch at h
+  dsimp only at h
+  split at h
+  · injection h with h; subst h
+    exact frame_rotate _ _ _ _ _ _
+  · split at h
+    · exact frame_executeRemote hc h
+    · split at h
+      · injection h with h; subst h; exact SellFrame.refl _
+      · split at h
+        · cases h
+        · exact (frame_applyReceipts hc ‹applyReceipts _ _ _ _ = Except.ok _›).trans (frame_executeRemote hc h)
+
+theorem frame_refundAll (c : Nat) (hc : c ≤ maxChainId) (l : List (Bytes × Nat)) (s s' : State)
+    (h : refundAll c l s = .ok s') : SellFrame s s' := by
+  induction l generalizing s with
+  | nil => simp [refundAll] at h; subst h; exact SellFrame.refl _
+  | cons e l ih =>
+    obtain ⟨a, n⟩ := e
+    unfold refundAll at h
+    split at h
+    · cases h
+    · rename_i s1 hr
+      unfold refund at hr
+      obtain ⟨s0, h0, hr⟩ := bind_ok hr
+      exact ((frame_poolSub (holdingId_lt hc) h0).trans (frame_accountAdd hr)).trans (ih _ h)
+
+theorem frame_livenessFallback {s s' : State} {c : Nat} {lb remote : Batch} (hc : c ≤ maxChainId)
+    (h : livenessFallback s c lb remote = .ok s') : SellFrame s s' := by
+  unfold livenessFallback at h
+  obtain ⟨s1, h1, h⟩ := bind_ok h
+  obtain ⟨s2, h2, h⟩ := bind_ok h
+  injection h with h; subst h
+  exact (((frame_refundAll _ hc _ _ _ h1).trans (frame_refundAll _ hc _ _ _ h2)).trans
+    (frame_setPool _ _ _ (liquidityId_lt hc))).trans (frame_setLocked _ _ _)
+
+theorem frame_dexBatchOn {s s' : State} {c : Nat} {nested : Bool} {remote : Batch} {bh : Bytes}
+    (hc : c ≤ maxChainId) (h : dexBatchOn s c nested remote bh = .ok s') : SellFrame s s' := by
+  unfold dexBatchOn at h
+  split at h
+  · cases h
+  · split at h
+    · cases h
+    · split at h
+      · injection h with h; subst h; exact SellFrame.refl _
+      · split at h
+        · split at h
+          · cases h
+          · exact (frame_livenessFallback hc ‹livenessFallback _ _ _ _ = Except.ok _›).trans (frame_remoteDexBatch hc h)
+        · exact frame_remoteDexBatch hc h
+
+/-- `HandleDexBatch` on a valid chain id (the certificate's committee, or the root chain id when nested) -/
+theorem frame_handleDexBatch {s s' : State} {c : Nat} {nested : Bool} {remote : Option Batch} {bh : Bytes}
+    (hc : (if nested then s.root else c) ≤ maxChainId) (h : handleDexBatch s c nested remote bh = .ok s') : SellFrame s s' := by
+  unfold handleDexBatch at h
+  split at h
+  · injection h with h; subst h; exact SellFrame.refl _
+  · exact frame_dexBatchOn hc h
+
+theorem frame_includeOne (s : State) (k : Nat) (b : Batch) : SellFrame s (includeOne s k b) := by
+  unfold includeOne
+  dsimp only
+  repeat' split
+  all_goals first
+    | exact SellFrame.refl _
+    | exact (frame_setLocked _ _ _).trans (frame_delNext _ _)
+    | exact (frame_setLocked _ _ _).trans (frame_setNext _ _ _)
+
+theorem frame_foldl {α : Type} (f : State → α → State) (l : List α) (s : State)
+    (h : ∀ s a, SellFrame s (f s a)) : SellFrame s (l.foldl f s) := by
+  induction l generalizing s with
+  | nil => exact SellFrame.refl _
+  | cons a l ih => exact (h s a).trans (ih _)
+
+theorem frame_endBlock (s : State) : SellFrame s (endBlock s) := by
+  unfold endBlock
+  dsimp only
+  refine SellFrame.trans (frame_foldl _ _ _ (fun s k => ?_)) ⟨rfl, fun _ _ => rfl, fun h => h⟩
+  split
+  · exact frame_includeOne _ _ _
+  · exact SellFrame.refl _
+
 end Canopy.Dex
